@@ -222,6 +222,8 @@ def rules(ctx):
 
     # ---------------------------------------------------------------- R01.3
     cname = ancilla_base_instances(ctx, 'R01.3')
+    from .C14 import registration_parity
+    registration_parity(ctx, 'R01.3')      # premise: the variable count bounds every mapped label
     if cname:
         incs = _counter_names(fn, W)[cname]
         takes = []
@@ -454,24 +456,13 @@ def rules(ctx):
         f_ = P.func('%s.convert_solution' % cname_)
         sn = R.self_name(f_)
         sol = f_.params[1]
-        rets = [x for x in walk_no_nested(strip_docstring(f_.node.body)) if isinstance(x, ast.Return)]
-        for r in rets:
-            v = r.value
-            ok = False
-            if isinstance(v, ast.DictComp) and len(v.generators) == 1 and not v.generators[0].ifs:
-                gen = v.generators[0]
-                i = src(gen.target)
-                rng = gen.iter
-                ok = (isinstance(rng, ast.Call) and is_name(rng.func, 'range') and len(rng.args) == 1 and
-                      src(rng.args[0]) in ('%s.num_binary_variables' % sn, '%s._num_binary_variables' % sn,
-                                           'len(%s._reverse_mapping)' % sn, 'len(%s._mapping)' % sn)
-                      and src(v.key) == '%s._reverse_mapping[%s]' % (sn, i) and src(v.value) == '%s[%s]' % (sol, i))
-            ctx.inst('R01.8', f_, r, ok,
-                     "decodes labels 0..n-1 through the reverse mapping; ancilla labels >= n are never read" if ok else
-                     "convert_solution does not decode exactly range(num_binary_variables) through the reverse "
-                     "mapping: `%s`" % src(v)[:100])
-        if not rets:
+        ok, r = decode_range_ok(f_, sn)
+        if r is None:
             raise AnalysisError("%s.convert_solution has no return" % cname_)
+        ctx.inst('R01.8', f_, r, ok,
+                 "decodes labels 0..n-1 through the reverse mapping; ancilla labels >= n are never read" if ok else
+                 "convert_solution does not decode exactly range(num_binary_variables) through the reverse "
+                 "mapping: `%s`" % src(r.value)[:100])
     for cname_, tgt in (('PUBO', 'QUBO'), ('PUSO', 'QUSO'), ('PCBO', 'QUBO'), ('PCSO', 'QUSO')):
         f_ = P.lookup_method(cname_, 'convert_solution')
         ok = False
@@ -521,6 +512,43 @@ def rules(ctx):
               lambda sn, p: {('%s.degree' % sn, '<=', '2'), ('%s.degree' % sn, '<', '3'), ('%s.degree' % sn, '<', '2'),
                              ('%s.degree' % sn, '<=', '1'), ('%s.degree' % sn, '==', '2')},
               "self.degree <= 2")
+
+
+def decode_range_ok(fn, selfn):
+    """convert_solution returns {reverse_mapping[i]: solution[i] for i in range(n)} - as a dict comprehension or as
+    an explicit loop filling a fresh dict that is returned."""
+    sol = fn.params[1]
+    ranges = ('range(%s.num_binary_variables)' % selfn, 'range(%s._num_binary_variables)' % selfn,
+              'range(len(%s._reverse_mapping))' % selfn, 'range(len(%s._mapping))' % selfn)
+    rets = [x for x in walk_no_nested(strip_docstring(fn.node.body)) if isinstance(x, ast.Return)]
+    if not rets:
+        return False, None
+    for r in rets:
+        v = r.value
+        ok = False
+        if isinstance(v, ast.DictComp) and len(v.generators) == 1 and not v.generators[0].ifs:
+            gen = v.generators[0]
+            i = src(gen.target)
+            ok = src(gen.iter) in ranges and src(v.key) == '%s._reverse_mapping[%s]' % (selfn, i) and \
+                src(v.value) == '%s[%s]' % (sol, i)
+        elif isinstance(v, ast.Name):
+            inits = [x for s_, x in assignments_to(fn.node, v.id) if isinstance(x, ast.AST)]
+            loops = [n for n in walk_no_nested(strip_docstring(fn.node.body)) if isinstance(n, ast.For) and src(n.iter) in ranges]
+            if len(inits) == 1 and src(inits[0]) in ('{}', 'dict()') and len(loops) == 1:
+                lp = loops[0]
+                i = src(lp.target)
+                body = [b for b in lp.body if not isinstance(b, ast.Expr) or not isinstance(b.value, ast.Constant)]
+                # allow a named temporary for the label: lab = self._reverse_mapping[i]; res[lab] = solution[i]
+                from ..astutil import expand_names
+                st = [b for b in body if isinstance(b, ast.Assign) and isinstance(b.targets[0], ast.Subscript)
+                      and is_name(b.targets[0].value, v.id)]
+                if len(st) == 1 and not any(isinstance(b, (ast.If, ast.Break, ast.Continue)) for b in ast.walk(lp)):
+                    key = src(expand_names(fn.node, st[0].targets[0].slice))
+                    val = src(expand_names(fn.node, st[0].value))
+                    ok = key == '%s._reverse_mapping[%s]' % (selfn, i) and val == '%s[%s]' % (sol, i)
+        if not ok:
+            return False, r
+    return True, rets[0]
 
 
 def _flipf(f):
